@@ -122,8 +122,8 @@ func cursorField(v ssa.Value) string {
 
 func runC05(c *Ctx) {
 	r, p := c.R, c.P
-	r.Summary = "C05 (reported source positions point at the right characters): decided clauses = every models.Location the tokenizer puts into a token span, a comment or an error comes from the single offset-to-line/column conversion (toSQLPosition / getCurrentPosition / getLocation) or is a constant; a Location assembled from the raw cursor fields Position.Line/Column is reported (the cursor's column convention differs after a newline); the conversion functions return Line >= 1 and Column >= 1 on every path."
-	r.NotCov = []string{"that the position is the right one (arithmetic over the input), monotonicity and containment of spans, parser error locations, the token-after-comment start position"}
+	r.Summary = "C05 (reported source positions point at the right characters): decided clauses = every models.Location the tokenizer puts into a token span, a comment or an error comes from the single offset-to-line/column conversion (toSQLPosition / getCurrentPosition / getLocation) or is a constant; a Location assembled from the raw cursor fields Position.Line/Column is reported (the cursor's column convention differs after a newline); the conversion functions return Line >= 1 and Column >= 1 on every path; the Start of a token is the cursor at the beginning of the scan that produced it (a scan that skips a comment and scans again takes the start again)."
+	r.NotCov = []string{"that the position is the right one (arithmetic over the input), monotonicity and containment of spans, parser error locations"}
 	r.Rule("single-conversion", "in pkg/sql/tokenizer every models.Location passed to an error builder or stored into TokenWithSpan.Start/End or Comment.Start/End is the result of a conversion function (a Tokenizer method returning models.Location computed from a byte offset) or built from constants only")
 	r.Rule("one-based", "each conversion function returns a Location whose Line and Column are >= 1 on every path")
 	tk := p.Pkg("pkg/sql/tokenizer")
@@ -193,6 +193,7 @@ func runC05(c *Ctx) {
 		}
 	}
 	r.Floor("single-conversion", n, 20, "Location sinks in the tokenizer")
+	runC05Start(c, conv)
 	// one-based
 	be := newBoundsEngine(p)
 	for fn := range conv {
@@ -267,8 +268,23 @@ func atLeastOneB(be *boundsEngine, v ssa.Value, use ssa.Instruction, depth int, 
 	}
 	switch x := v.(type) {
 	case *ssa.Phi:
-		for _, e := range x.Edges {
-			if !atLeastOneB(be, e, use, depth+1, busy) {
+		for i, e := range x.Edges {
+			if atLeastOneB(be, e, use, depth+1, busy) {
+				continue
+			}
+			// a guard on the incoming edge: `if n > 0 { line = n }`
+			pred := x.Block().Preds[i]
+			last := pred.Instrs[len(pred.Instrs)-1]
+			one := lin{"", 1, nil, true}
+			ok := false
+			for _, mode := range []bool{false, true} {
+				be.pathMode = mode
+				if be.leq(one, be.linOf(e), 0, be.edgeFacts(pred, x.Block()), last) {
+					ok = true
+				}
+			}
+			be.pathMode = false
+			if !ok {
 				return false
 			}
 		}
@@ -292,4 +308,291 @@ func atLeastOneB(be *boundsEngine, v ssa.Value, use ssa.Instruction, depth int, 
 		return atLeastOneB(be, x.X, use, depth+1, busy)
 	}
 	return false
+}
+
+// ---- start-at-token ------------------------------------------------------------------------
+
+var c05CursorKeys = []string{"Tokenizer.pos", "Position.Index", "Position.Line", "Position.Column"}
+
+func c05MovesCursor(be *boundsEngine, p *core.Prog, in ssa.Instruction) bool {
+	switch x := in.(type) {
+	case *ssa.Store:
+		for a := x.Addr; ; {
+			fa, ok := a.(*ssa.FieldAddr)
+			if !ok {
+				return false
+			}
+			k := fieldKey(fa.X, fa.Field)
+			for _, c := range c05CursorKeys {
+				if k == c {
+					return true
+				}
+			}
+			a = fa.X
+		}
+	case ssa.CallInstruction:
+		if _, isB := x.Common().Value.(*ssa.Builtin); isB {
+			return false
+		}
+		for _, c := range p.Callees(x) {
+			if c.Blocks == nil {
+				continue
+			}
+			ms := be.modSet(c)
+			for _, k := range c05CursorKeys {
+				if ms[k] {
+					return true
+				}
+			}
+		}
+	}
+	return false
+}
+
+// c05OnCycleAvoiding: can control leave instruction c and reach it again without executing instruction avoid?
+func c05OnCycleAvoiding(c, avoid ssa.Instruction) bool {
+	cb := c.Block()
+	idx := func(b *ssa.BasicBlock, in ssa.Instruction) int {
+		for i, x := range b.Instrs {
+			if x == in {
+				return i
+			}
+		}
+		return -1
+	}
+	ci := idx(cb, c)
+	// scan from just after c
+	seen := map[*ssa.BasicBlock]bool{}
+	var scan func(b *ssa.BasicBlock, from int) bool
+	scan = func(b *ssa.BasicBlock, from int) bool {
+		for i := from; i < len(b.Instrs); i++ {
+			if avoid != nil && b.Instrs[i] == avoid {
+				return false
+			}
+			if b.Instrs[i] == c {
+				return true
+			}
+		}
+		for _, s := range b.Succs {
+			if seen[s] {
+				continue
+			}
+			seen[s] = true
+			if scan(s, 0) {
+				return true
+			}
+		}
+		return false
+	}
+	return scan(cb, ci+1)
+}
+
+// c05ProducingCall: the call whose result is the token value v (nil when v is built in place).
+func c05ProducingCall(v ssa.Value) (*ssa.Call, int) {
+	switch x := v.(type) {
+	case *ssa.Extract:
+		if c, ok := x.Tuple.(*ssa.Call); ok {
+			return c, x.Index
+		}
+	case *ssa.Call:
+		return x, 0
+	}
+	return nil, 0
+}
+
+// c05ScansOnce: following the token value down the call chain, no producing call sits in a loop of its function.
+func c05ScansOnce(p *core.Prog, c *ssa.Call, idx int, depth int) (bool, string) {
+	if depth > 6 {
+		return true, ""
+	}
+	g := c.Call.StaticCallee()
+	if g == nil || g.Blocks == nil {
+		return true, ""
+	}
+	for _, b := range g.Blocks {
+		ret, ok := b.Instrs[len(b.Instrs)-1].(*ssa.Return)
+		if !ok || idx >= len(ret.Results) {
+			continue
+		}
+		c2, i2 := c05ProducingCall(retOperand(ret, idx))
+		if c2 == nil {
+			continue
+		}
+		if c05OnCycleAvoiding(c2, nil) {
+			f2 := "a function value"
+			if sc := c2.Call.StaticCallee(); sc != nil {
+				f2 = sc.Name()
+			}
+			return false, g.Name() + " calls " + f2 + " in a loop (it scans again after skipping), so it may scan more than once per call"
+		}
+		if ok, why := c05ScansOnce(p, c2, i2, depth+1); !ok {
+			return false, why
+		}
+	}
+	return true, ""
+}
+
+// c05StartOK: the cursor value P used as the start of the token T is the cursor at the beginning of the scan that produced T.
+func c05StartOK(be *boundsEngine, p *core.Prog, T, P ssa.Value, depth int) (bool, string) {
+	if depth > 6 {
+		return false, "call chain too deep"
+	}
+	c, ti := c05ProducingCall(T)
+	if c == nil {
+		return true, "token built in place"
+	}
+	_ = ti
+	// (a) the start is returned by the same call: check inside the callee
+	if ex, ok := P.(*ssa.Extract); ok && ex.Tuple == ssa.Value(c) {
+		g := c.Call.StaticCallee()
+		if g == nil || g.Blocks == nil {
+			return false, "start comes from a call that cannot be resolved"
+		}
+		for _, b := range g.Blocks {
+			ret, ok := b.Instrs[len(b.Instrs)-1].(*ssa.Return)
+			if !ok {
+				continue
+			}
+			if ok, why := c05StartOK(be, p, retOperand(ret, ti), retOperand(ret, ex.Index), depth+1); !ok {
+				return false, why
+			}
+		}
+		return true, "start returned together with the token"
+	}
+	// (b) a cursor snapshot taken in this function
+	var ld ssa.Instruction
+	switch x := P.(type) {
+	case *ssa.UnOp:
+		if fa, ok := x.X.(*ssa.FieldAddr); ok && fieldKey(fa.X, fa.Field) == "Tokenizer.pos" {
+			ld = x
+		}
+	case *ssa.Call:
+		if f := x.Call.StaticCallee(); f != nil && f.Name() == "Clone" && len(x.Call.Args) == 1 {
+			if u, ok := x.Call.Args[0].(*ssa.UnOp); ok {
+				if fa, ok := u.X.(*ssa.FieldAddr); ok && fieldKey(fa.X, fa.Field) == "Tokenizer.pos" {
+					ld = x
+				}
+			}
+		}
+	}
+	if ld == nil {
+		return false, "the start position is neither returned with the token nor a snapshot of the cursor"
+	}
+	if ld.Parent() != c.Parent() || !ld.Block().Dominates(c.Block()) {
+		return false, "the cursor snapshot is not taken on the way to the scan"
+	}
+	// same iteration: every way from the scan back to the scan passes the snapshot
+	if c05OnCycleAvoiding(c, ld) {
+		return false, "the scan can run again without the start being taken again"
+	}
+	// nothing moves the cursor between the snapshot and the scan
+	seen := map[*ssa.BasicBlock]bool{}
+	var walk func(b *ssa.BasicBlock, from int) (bool, ssa.Instruction)
+	walk = func(b *ssa.BasicBlock, from int) (bool, ssa.Instruction) {
+		for i := from; i < len(b.Instrs); i++ {
+			in := b.Instrs[i]
+			if in == ssa.Instruction(c) {
+				return false, nil
+			}
+			if in == ld {
+				return false, nil
+			}
+			if c05MovesCursor(be, p, in) {
+				return true, in
+			}
+		}
+		for _, s := range b.Succs {
+			if seen[s] || !core.BlockReaches(s, c.Block()) {
+				continue
+			}
+			seen[s] = true
+			if bad, at := walk(s, 0); bad {
+				return true, at
+			}
+		}
+		return false, nil
+	}
+	start := 0
+	for i, in := range ld.Block().Instrs {
+		if in == ld {
+			start = i + 1
+		}
+	}
+	if bad, at := walk(ld.Block(), start); bad {
+		return false, "the cursor may move between the snapshot and the scan (" + p.Pos(at.Pos()) + ")"
+	}
+	// the scan itself produces exactly one element per call
+	if ok, why := c05ScansOnce(p, c, ti, 0); !ok {
+		return false, "the start is taken before the call, but " + why + ": a token that follows a comment gets the comment's position"
+	}
+	return true, "snapshot immediately before a single scan"
+}
+
+func runC05Start(c *Ctx, conv map[*ssa.Function]bool) {
+	r, p := c.R, c.P
+	r.Rule("start-at-token", "the Start of every emitted token is the cursor at the beginning of the scan that produced that token: it is returned together with the token, or captured immediately before a call that scans exactly once (no loop that skips a comment and scans again between the capture and the token)")
+	be := newBoundsEngine(p)
+	n := 0
+	for _, fn := range p.SrcFuncs("pkg/sql/tokenizer") {
+		seq := 0
+		for _, b := range fn.Blocks {
+			for _, in := range b.Instrs {
+				st, ok := in.(*ssa.Store)
+				if !ok {
+					continue
+				}
+				fa, ok := st.Addr.(*ssa.FieldAddr)
+				if !ok {
+					continue
+				}
+				tn := core.NamedOf(fa.X.Type())
+				if tn == nil || tn.Obj().Name() != "TokenWithSpan" || core.FieldName(fa.X.Type(), fa.Field) != "Start" {
+					continue
+				}
+				call, ok := st.Val.(*ssa.Call)
+				if !ok {
+					continue
+				}
+				f := call.Call.StaticCallee()
+				if f == nil || !conv[f] {
+					continue
+				}
+				var P ssa.Value
+				for _, a := range call.Call.Args[1:] {
+					if n := core.NamedOf(a.Type()); n != nil && n.Obj().Name() == "Position" {
+						P = a
+					}
+				}
+				if P == nil {
+					continue // current position (no snapshot involved)
+				}
+				// the token stored in the same struct
+				var T ssa.Value
+				for _, ref := range core.Referrers(fa.X) {
+					fa2, ok := ref.(*ssa.FieldAddr)
+					if !ok || core.FieldName(fa2.X.Type(), fa2.Field) != "Token" {
+						continue
+					}
+					for _, r2 := range core.Referrers(fa2) {
+						if s2, ok := r2.(*ssa.Store); ok && s2.Addr == ssa.Value(fa2) {
+							T = s2.Val
+						}
+					}
+				}
+				seq++
+				n++
+				key := core.FnName(fn) + sprintf("|Start#%d", seq)
+				if T == nil {
+					r.Undecide("start-at-token", key, p.Pos(st.Pos()), "cannot find the token stored next to this Start")
+					continue
+				}
+				if ok, why := c05StartOK(be, p, T, P, 0); ok {
+					r.OK("start-at-token", key, p.Pos(st.Pos()), why)
+				} else {
+					r.Violate("start-at-token", key, p.Pos(st.Pos()), why)
+				}
+			}
+		}
+	}
+	r.Floor("start-at-token", n, 2, "token Start stores with a cursor snapshot")
 }
